@@ -15,8 +15,8 @@ import (
 	"hop.computer/hop/common"
 )
 
-// VerifFrame mirrors the unexported frame struct.
-type VerifFrame struct {
+// VerifWireFrame mirrors the unexported frame struct.
+type VerifWireFrame struct {
 	AckNo, FrameNo                uint32
 	DataLength                    uint16
 	REQ, RESP, REL, ACK, FIN, RTR bool
@@ -24,30 +24,30 @@ type VerifFrame struct {
 	Data                          []byte
 }
 
-func (v VerifFrame) in() *frame {
+func (v VerifWireFrame) in() *frame {
 	return &frame{ackNo: v.AckNo, frameNo: v.FrameNo, dataLength: v.DataLength, tubeID: v.TubeID, data: v.Data,
 		flags: frameFlags{REQ: v.REQ, RESP: v.RESP, REL: v.REL, ACK: v.ACK, FIN: v.FIN, RTR: v.RTR}}
 }
 
-func verifOut(f *frame) VerifFrame {
-	return VerifFrame{AckNo: f.ackNo, FrameNo: f.frameNo, DataLength: f.dataLength, TubeID: f.tubeID, Data: f.data,
+func verifWireOut(f *frame) VerifWireFrame {
+	return VerifWireFrame{AckNo: f.ackNo, FrameNo: f.frameNo, DataLength: f.dataLength, TubeID: f.tubeID, Data: f.data,
 		REQ: f.flags.REQ, RESP: f.flags.RESP, REL: f.flags.REL, ACK: f.flags.ACK, FIN: f.flags.FIN, RTR: f.flags.RTR}
 }
 
-// VerifFrameToBytes = (*frame).toBytes
-func VerifFrameToBytes(v VerifFrame) []byte { return v.in().toBytes() }
+// VerifWireFrameToBytes = (*frame).toBytes
+func VerifWireFrameToBytes(v VerifWireFrame) []byte { return v.in().toBytes() }
 
-// VerifFromBytes = fromBytes
-func VerifFromBytes(b []byte) (VerifFrame, error) {
+// VerifWireFromBytes = fromBytes
+func VerifWireFromBytes(b []byte) (VerifWireFrame, error) {
 	f, err := fromBytes(b)
 	if err != nil || f == nil {
-		return VerifFrame{}, err
+		return VerifWireFrame{}, err
 	}
-	return verifOut(f), nil
+	return verifWireOut(f), nil
 }
 
-// VerifInitFrame mirrors initiateFrame.
-type VerifInitFrame struct {
+// VerifWireInitFrame mirrors initiateFrame.
+type VerifWireInitFrame struct {
 	FrameNo                       uint32
 	TubeID, TubeType              byte
 	Data                          []byte
@@ -55,39 +55,39 @@ type VerifInitFrame struct {
 	REQ, RESP, REL, ACK, FIN, RTR bool
 }
 
-// VerifInitToBytes = (*initiateFrame).toBytes
-func VerifInitToBytes(v VerifInitFrame) []byte {
+// VerifWireInitToBytes = (*initiateFrame).toBytes
+func VerifWireInitToBytes(v VerifWireInitFrame) []byte {
 	p := &initiateFrame{frameNo: v.FrameNo, tubeID: v.TubeID, tubeType: TubeType(v.TubeType), data: v.Data, dataLength: v.DataLength,
 		flags: frameFlags{REQ: v.REQ, RESP: v.RESP, REL: v.REL, ACK: v.ACK, FIN: v.FIN, RTR: v.RTR}}
 	return p.toBytes()
 }
 
-// VerifFromInitiateBytes = fromInitiateBytes
-func VerifFromInitiateBytes(b []byte) VerifInitFrame {
+// VerifWireFromInitiateBytes = fromInitiateBytes
+func VerifWireFromInitiateBytes(b []byte) VerifWireInitFrame {
 	p := fromInitiateBytes(b)
-	return VerifInitFrame{FrameNo: p.frameNo, TubeID: p.tubeID, TubeType: byte(p.tubeType), Data: p.data, DataLength: p.dataLength,
+	return VerifWireInitFrame{FrameNo: p.frameNo, TubeID: p.tubeID, TubeType: byte(p.tubeType), Data: p.data, DataLength: p.dataLength,
 		REQ: p.flags.REQ, RESP: p.flags.RESP, REL: p.flags.REL, ACK: p.flags.ACK, FIN: p.flags.FIN, RTR: p.flags.RTR}
 }
 
-// VerifReframe is what the muxer receiver does with a frame it treats as an initiate frame:
+// VerifWireReframe is what the muxer receiver does with a frame it treats as an initiate frame:
 // fromInitiateBytes(frame.toBytes()).
-func VerifReframe(b []byte) (VerifInitFrame, error) {
+func VerifWireReframe(b []byte) (VerifWireInitFrame, error) {
 	f, err := fromBytes(b)
 	if err != nil || f == nil {
-		return VerifInitFrame{}, err
+		return VerifWireInitFrame{}, err
 	}
-	return VerifFromInitiateBytes(f.toBytes()), nil
+	return VerifWireFromInitiateBytes(f.toBytes()), nil
 }
 
-func verifLog() *logrus.Entry {
+func verifWireLog() *logrus.Entry {
 	l := logrus.New()
 	l.SetLevel(logrus.PanicLevel)
 	return logrus.NewEntry(l)
 }
 
-// VerifUnreliableWrite runs the production (*Unreliable).WriteMsgUDP on an initiated tube whose
+// VerifWireUnreliableWrite runs the production (*Unreliable).WriteMsgUDP on an initiated tube whose
 // outgoing queue is captured; returns the encoded frame that was queued (nil if none).
-func VerifUnreliableWrite(id byte, frameNo uint32, b []byte) (queued []byte, n int, err error) {
+func VerifWireUnreliableWrite(id byte, frameNo uint32, b []byte) (queued []byte, n int, err error) {
 	u := &Unreliable{
 		id:        id,
 		state:     atomic.Value{},
@@ -95,7 +95,7 @@ func VerifUnreliableWrite(id byte, frameNo uint32, b []byte) (queued []byte, n i
 		closed:    make(chan struct{}),
 		send:      common.NewDeadlineChan[[]byte](4),
 		recv:      common.NewDeadlineChan[[]byte](4),
-		log:       verifLog(),
+		log:       verifWireLog(),
 	}
 	u.state.Store(initiated)
 	close(u.initiated)
@@ -108,12 +108,12 @@ func VerifUnreliableWrite(id byte, frameNo uint32, b []byte) (queued []byte, n i
 	return
 }
 
-// VerifPreloadedReliable returns a Reliable tube in the initiated state whose receive buffer
+// VerifWirePreloadedReliable returns a Reliable tube in the initiated state whose receive buffer
 // already holds b followed by end-of-stream (as after the peer wrote b and closed). Read is
 // the production (*Reliable).Read / receiver.read. Used to feed exact byte strings to decoders
 // whose parameter type is *tubes.Reliable. Writes are discarded.
-func VerifPreloadedReliable(b []byte) *Reliable {
-	log := verifLog()
+func VerifWirePreloadedReliable(b []byte) *Reliable {
+	log := verifWireLog()
 	r := &Reliable{
 		tubeState:  initiated,
 		initRecv:   make(chan struct{}),
@@ -133,11 +133,11 @@ func VerifPreloadedReliable(b []byte) *Reliable {
 	return r
 }
 
-// VerifRecvAck builds a sender in the given state (ackNo, one unacknowledged frame per entry of
+// VerifWireRecvAck builds a sender in the given state (ackNo, one unacknowledged frame per entry of
 // dataLens with consecutive frame numbers starting at uint32(ackNo), window size, duplicate-ack
 // counter), runs the production recvAck(ack) and reports the state afterwards.
-func VerifRecvAck(ackNo uint64, dataLens []uint16, window uint16, dup int, ack uint32) (newAck uint64, remaining int, missing uint32, err error) {
-	s := newSender(verifLog())
+func VerifWireRecvAck(ackNo uint64, dataLens []uint16, window uint16, dup int, ack uint32) (newAck uint64, remaining int, missing uint32, err error) {
+	s := newSender(verifWireLog())
 	defer s.RetransmitTicker.Stop()
 	s.ackNo = ackNo
 	s.senderWindow.windowSize = window
@@ -154,10 +154,10 @@ func VerifRecvAck(ackNo uint64, dataLens []uint16, window uint16, dup int, ack u
 	return s.ackNo, len(s.frames), missing, err
 }
 
-// VerifReliableWriteMsgUDP runs the production (*Reliable).WriteMsgUDP on a preloaded tube and
+// VerifWireReliableWriteMsgUDP runs the production (*Reliable).WriteMsgUDP on a preloaded tube and
 // returns the bytes it put into the stream (the data of the frames the sender buffered).
-func VerifReliableWriteMsgUDP(b []byte) (stream []byte, n int, err error) {
-	r := VerifPreloadedReliable(nil)
+func VerifWireReliableWriteMsgUDP(b []byte) (stream []byte, n int, err error) {
+	r := VerifWirePreloadedReliable(nil)
 	n, _, err = r.WriteMsgUDP(b, nil, nil)
 	r.sender.m.Lock()
 	for _, f := range r.sender.frames {
@@ -167,21 +167,21 @@ func VerifReliableWriteMsgUDP(b []byte) (stream []byte, n int, err error) {
 	return
 }
 
-// VerifUnread is the number of bytes still buffered in a preloaded tube.
-func VerifUnread(r *Reliable) int {
+// VerifWireUnread is the number of bytes still buffered in a preloaded tube.
+func VerifWireUnread(r *Reliable) int {
 	r.recvWindow.m.Lock()
 	defer r.recvWindow.m.Unlock()
 	return r.recvWindow.buffer.Len()
 }
 
-// VerifReliableReadMsgUDP runs the production (*Reliable).ReadMsgUDP on a tube whose stream holds
+// VerifWireReliableReadMsgUDP runs the production (*Reliable).ReadMsgUDP on a tube whose stream holds
 // exactly b; returns the message, the bytes left unread and the error.
-func VerifReliableReadMsgUDP(b []byte) (msg []byte, left int, err error) {
-	return VerifReliableReadMsgUDPOn(VerifPreloadedReliable(b), make([]byte, 1<<17))
+func VerifWireReliableReadMsgUDP(b []byte) (msg []byte, left int, err error) {
+	return VerifWireReliableReadMsgUDPOn(VerifWirePreloadedReliable(b), make([]byte, 1<<17))
 }
 
-// VerifReliableReadMsgUDPOn is the call alone, on a prepared tube and buffer.
-func VerifReliableReadMsgUDPOn(r *Reliable, buf []byte) (msg []byte, left int, err error) {
+// VerifWireReliableReadMsgUDPOn is the call alone, on a prepared tube and buffer.
+func VerifWireReliableReadMsgUDPOn(r *Reliable, buf []byte) (msg []byte, left int, err error) {
 	n, _, _, _, err := r.ReadMsgUDP(buf, nil)
-	return buf[:n], VerifUnread(r), err
+	return buf[:n], VerifWireUnread(r), err
 }
